@@ -1,7 +1,7 @@
 (* C13/ExprProofs.v -- the implementation model of the expression layer (ExprImpl.v, with the
    proposed repairs) computes what SPARQL 1.1 section 17 (ExprModel.v) prescribes. *)
 From Coq Require Import String Ascii.
-From Sophia.C13 Require Import ExprImpl NumProofs.
+From Sophia.C13 Require Import ExprImpl.
 
 (* ------------------------------------------------------------------------------------ *)
 (* 1. lexical forms: the Rust parsers agree with the XSD mappings on the XSD lexical spaces *)
@@ -816,3 +816,485 @@ Proof.
   - discriminate.
 Qed.
 End Corollaries.
+
+From Sophia.C13 Require Import ExprConcrete.
+(* ------------------------------------------------------------------------------------ *)
+(* 6. the code before the repairs, and the two differences that are not repaired:
+      concrete witnesses (all replayed on the engine by harness/src/bin/c13e.rs) *)
+(* ------------------------------------------------------------------------------------ *)
+Definition lit (l d : string) : expr := EConst (LitDt (L l) (xsd d)).
+Definition tlit (l d : string) : term := LitDt (L l) (xsd d).
+Definition spec_bind (cf : cfg) := s_bind XC (P_sophia XC cf) extensions_only.
+Definition spec_filter (cf : cfg) := s_filter XC (P_sophia XC cf) extensions_only.
+Definition is_bad_num {X} (k : tclass X) : bool := match k with KBadNum => true | _ => false end.
+Definition one := lit "1" "integer". Definition two := lit "2" "integer". Definition zero := lit "0" "integer".
+
+(* C13e-1 *)
+Definition w_if := EIf (EConst (Iri (L "tag:x"))) one two.
+Example if_refuted : i_bind XC cfg_head w_if [] = Some (tlit "2" "integer") /\ spec_bind cfg_head w_if [] = None.
+Proof. vm_compute. auto. Qed.
+Example if_fixed : i_bind XC cfg_fixed w_if [] = None.
+Proof. vm_compute. reflexivity. Qed.
+(* C13e-2 *)
+Definition w_eq_ill := ENot (EEq (lit "foo" "boolean") (lit "true" "boolean")).
+Example eq_ill_refuted : i_filter XC cfg_head w_eq_ill [] = true /\ spec_filter cfg_head w_eq_ill [] = false.
+Proof. vm_compute. auto. Qed.
+Example eq_ill_refuted2 :
+  i_bind XC cfg_head (EEq (lit "foo" "dateTime") (lit "bar" "dateTime")) [] = Some (tlit "true" "boolean")
+  /\ spec_bind cfg_head (EEq (lit "foo" "dateTime") (lit "bar" "dateTime")) [] = None.
+Proof. vm_compute. auto. Qed.
+Example eq_ill_fixed : i_filter XC cfg_fixed w_eq_ill [] = false.
+Proof. vm_compute. reflexivity. Qed.
+(* C13e-3 *)
+Definition w_nan := ENot (lit "NaN" "float").
+Example nan_truthy_refuted : i_filter XC cfg_head w_nan [] = false /\ spec_filter cfg_head w_nan [] = true.
+Proof. vm_compute. auto. Qed.
+Example nan_truthy_fixed : i_filter XC cfg_fixed w_nan [] = true.
+Proof. vm_compute. reflexivity. Qed.
+(* C13e-4 *)
+Definition w_illnum := ENot (lit "abc" "integer").
+Example ebv_illnum_refuted : i_filter XC cfg_head w_illnum [] = false /\ spec_filter cfg_head w_illnum [] = true.
+Proof. vm_compute. auto. Qed.
+Example ebv_illnum_fixed : i_filter XC cfg_fixed w_illnum [] = true.
+Proof. vm_compute. reflexivity. Qed.
+(* C13e-5 *)
+Definition w_nan_cmp := ENot (ELt (lit "NaN" "double") one).
+Example nan_cmp_refuted : i_filter XC cfg_head w_nan_cmp [] = false /\ spec_filter cfg_head w_nan_cmp [] = true.
+Proof. vm_compute. auto. Qed.
+Example nan_cmp_fixed : i_filter XC cfg_fixed w_nan_cmp [] = true.
+Proof. vm_compute. reflexivity. Qed.
+(* C13e-6 *)
+Definition w_lex1 := EAdd (lit "1_0" "integer") zero.
+Definition w_lex2 := EAdd (lit ".-5" "decimal") zero.
+Definition w_lex3 := EEq (lit "inf" "double") (lit "INF" "double").
+Example lex_refuted :
+  i_bind XC cfg_head w_lex1 [] = Some (tlit "10" "integer") /\ spec_bind cfg_head w_lex1 [] = None /\
+  i_bind XC cfg_head w_lex2 [] = Some (tlit "-0.05" "decimal") /\ spec_bind cfg_head w_lex2 [] = None /\
+  i_filter XC cfg_head w_lex3 [] = true /\ spec_filter cfg_head w_lex3 [] = false.
+Proof. vm_compute. auto 7. Qed.
+Example lex_fixed : i_bind XC cfg_fixed w_lex1 [] = None /\ i_bind XC cfg_fixed w_lex2 [] = None /\ i_filter XC cfg_fixed w_lex3 [] = false.
+Proof. vm_compute. auto. Qed.
+(* C13e-7: the literal written for 0.0000001 * 1.0 is not an xsd:decimal *)
+Definition w_dec := EMul (lit "0.0000001" "decimal") (lit "1.0" "decimal").
+Example dec_print_refuted :
+  i_bind XC cfg_head w_dec [] = Some (tlit "1E-7" "decimal") /\ is_bad_num (classify XC (tlit "1E-7" "decimal")) = true.
+Proof. vm_compute. auto. Qed.
+Example dec_print_fixed :
+  i_bind XC cfg_fixed w_dec [] = Some (tlit "0.0000001" "decimal")
+  /\ xsd_decimal (L "0.0000001") = Some (1%Z, 7%N).
+Proof. vm_compute. auto. Qed.
+(* C13e-8 *)
+Example dt_year0_refuted : year_of_capture0 (L "99999999999") = Panic.
+Proof. vm_compute. reflexivity. Qed.
+Example dt_year_fixed : year_of_capture (L "99999999999") = Val None.
+Proof. vm_compute. reflexivity. Qed.
+(* C13e-9 *)
+Definition w_unsigned := EAdd (lit "-0" "unsignedByte") one.
+Example unsigned_refuted : i_bind XC cfg_head w_unsigned [] = None /\ spec_bind cfg_head w_unsigned [] = Some (tlit "1" "integer").
+Proof. vm_compute. auto. Qed.
+Example unsigned_fixed : i_bind XC cfg_fixed w_unsigned [] = Some (tlit "1" "integer").
+Proof. vm_compute. reflexivity. Qed.
+
+(* NOT repaired (the crate's test "in with error" expects it): 2 IN (1/0, 2) *)
+Definition w_in := EIn two [EDiv one zero; two].
+Example in_refuted : i_bind XC cfg_fixed w_in [] = None /\ spec_bind cfg_fixed w_in [] = Some (tlit "true" "boolean").
+Proof. vm_compute. auto. Qed.
+(* NOT repaired (two tests expect "inf"): the literal written for 1e0 / 0e0 is not an xsd:double *)
+Definition w_inf := EDiv (lit "1e0" "double") (lit "0e0" "double").
+Example inf_output_refuted :
+  i_bind XC cfg_fixed w_inf [] = Some (tlit "inf" "double")
+  /\ is_bad_num (classify XC (tlit "inf" "double")) = true
+  /\ d_lex XC (d_print XC (SpecFloat.S754_infinity false)) = None.
+Proof. vm_compute. auto. Qed.
+(* the float library of ExprConcrete.v satisfies the two hypotheses of the theorems on a sample
+   of lexical forms (they are the definition of sf_xsd / sf_rust: same reader, different guard) *)
+Example hyp_sample :
+  forallb (fun s => match (if float_syntax s then d_rust XC s else None), d_lex XC s with
+                    | Some a, Some b => sf_eqb a b | None, None => true | _, _ => false end)
+          [L "1e0"; L "inf"; L "INF"; L "-INF"; L "+INF"; L "NaN"; L "nan"; L ".5"; L "5."; L "."; L "1e"; L "1E+2"; L "-0"; L "Infinity"; L ""; L "+.e1"] = true.
+Proof. vm_compute. reflexivity. Qed.
+
+(* ------------------------------------------------------------------------------------ *)
+(* 7. the literals written for computed integers and booleans are well-typed and denote
+      the computed value (for decimals, floats and doubles see the Examples above) *)
+(* ------------------------------------------------------------------------------------ *)
+Lemma digits_val_app s1 : forall s2 a,
+  digits_val a (s1 ++ s2) = match digits_val a s1 with Some v => digits_val v s2 | None => None end.
+Proof.
+  induction s1 as [|ch r IH]; intros s2 a; simpl; [reflexivity|].
+  destruct (is_digit ch); [apply IH|reflexivity].
+Qed.
+Lemma nat_digits_acc fuel : forall n acc, nat_digits fuel n acc = nat_digits fuel n [] ++ acc.
+Proof.
+  induction fuel as [|f IH]; intros n acc; cbn [nat_digits]; [reflexivity|].
+  destruct (n / 10 =? 0)%Z; [reflexivity|].
+  rewrite IH. rewrite (IH _ [_]). rewrite <- app_assoc. reflexivity.
+Qed.
+Lemma nat_digits_val fuel : forall n, (0 <= n < 2 ^ Z.of_nat fuel)%Z -> (1 <= fuel)%nat ->
+  digits_val 0 (nat_digits fuel n []) = Some n /\ nat_digits fuel n [] <> [].
+Proof.
+  induction fuel as [|f IH]; intros n B F; [lia|]. cbn [nat_digits].
+  assert (Dg : is_digit (48 + Z.to_N (n mod 10)) = true /\ dval (48 + Z.to_N (n mod 10)) = (n mod 10)%Z).
+  { pose proof (Z.mod_pos_bound n 10 ltac:(lia)) as M. unfold is_digit, dval. split.
+    - apply andb_true_iff. split; apply N.leb_le; lia.
+    - lia. }
+  destruct Dg as [Dg Dv].
+  destruct (Z.eqb_spec (n / 10) 0) as [E|E].
+  - split; [|discriminate]. cbn [digits_val]. rewrite Dg, Dv. f_equal.
+    pose proof (Z.div_mod n 10 ltac:(lia)). lia.
+  - rewrite nat_digits_acc. split.
+    + assert (10 <= n)%Z.
+      { destruct (Z_lt_le_dec n 10); [|assumption]. exfalso. apply E. apply Z.div_small. lia. }
+      assert (Bf : (0 <= n / 10 < 2 ^ Z.of_nat f)%Z).
+      { split; [apply Z.div_pos; lia|]. apply Z.div_lt_upper_bound; [lia|].
+        rewrite Nat2Z.inj_succ, Z.pow_succ_r in B by lia. lia. }
+      assert (Ff : (1 <= f)%nat).
+      { destruct f; [|lia]. simpl in B. lia. }
+      destruct (IH _ Bf Ff) as [V _]. rewrite digits_val_app, V. cbn [digits_val]. rewrite Dg, Dv. f_equal.
+      pose proof (Z.div_mod n 10 ltac:(lia)). lia.
+    + intros C. apply app_eq_nil in C as [_ C]. discriminate.
+Qed.
+Lemma nat_str_val n : (0 <= n)%Z -> digits_val 0 (nat_str n) = Some n /\ nat_str n <> [].
+Proof.
+  intros N0. unfold nat_str. apply nat_digits_val; [|lia].
+  split; [assumption|]. rewrite Nat2Z.inj_succ, Z2Nat.id by apply Z.log2_nonneg.
+  destruct (Z.eq_dec n 0) as [->|NZ]; [reflexivity|]. apply Z.log2_spec. lia.
+Qed.
+(* Display of an integer is in the lexical space of xsd:integer and reads back to the integer *)
+Theorem int_print_valid z : xsd_integer (z_to_str z) = Some z.
+Proof.
+  unfold z_to_str. destruct (Z.ltb_spec z 0) as [Ng|Ps].
+  - unfold xsd_integer, strip_sign. cbn [is_minus N.eqb Pos.eqb].
+    destruct (nat_str_val (- z) ltac:(lia)) as [V NE].
+    destruct (nat_str (- z)) as [|d0 r]; [congruence|]. rewrite V. cbn [option_map sgn]. f_equal. lia.
+  - destruct (nat_str_val z Ps) as [V NE].
+    apply (xsd_integer_signed false [] (nat_str z) z); auto.
+Qed.
+
+Section Valid.
+Variable X : xlib.
+Notation c := cfg_fixed.
+(* BIND of a computed integer / boolean: a well-typed literal denoting exactly that value *)
+Theorem computed_int_valid z : classify X (s_term X (P_sophia X c) (SN (XI z))) = KNum (XI z).
+Proof.
+  cbn [s_term xnum_dt P_sophia]. unfold classify.
+  change (strip_pre xsd_ns xsd_integer_iri) with (Some (L "integer")). cbv iota beta.
+  change (numtype_of (L "integer")) with (Some TInteger). cbv iota beta.
+  cbn [l2v_num]. rewrite int_print_valid. reflexivity.
+Qed.
+Theorem computed_bool_valid b : classify X (s_term X (P_sophia X c) (SB b)) = KBool b.
+Proof. destruct b; reflexivity. Qed.
+End Valid.
+
+(* ------------------------------------------------------------------------------------ *)
+(* 8. without IN, sophia's dialect is the operator table plus 17.3.1 extensions only *)
+(* ------------------------------------------------------------------------------------ *)
+Fixpoint no_in (e : expr) : bool :=
+  match e with
+  | EConst _ | EVar _ | EBound _ => true
+  | EIn _ _ => false
+  | ENot a | EPlus a | EMinus a | EFn _ a => no_in a
+  | EOr a b | EAnd a b | EEq a b | ESameTerm a b | EGt a b | EGe a b | ELt a b | ELe a b
+  | EAdd a b | ESub a b | EMul a b | EDiv a b => no_in a && no_in b
+  | EIf a b d => no_in a && no_in b && no_in d
+  | ECoalesce l => forallb no_in l
+  end.
+Section NoIn.
+Variable X : xlib.
+Variable Pr : xnum X -> str.
+Lemma no_in_dialect e mu : no_in e = true ->
+  s_eval X Pr sophia_dialect e mu = s_eval X Pr extensions_only e mu.
+Proof.
+  induction e using expr_ind_nested; cbn [no_in s_eval]; intros N;
+    repeat match goal with H : _ && _ = true |- _ => apply andb_true_iff in H as [? ?] end;
+    try discriminate;
+    repeat match goal with IH : no_in ?a = true -> _, H : no_in ?a = true |- _ => rewrite (IH H); clear IH end;
+    try reflexivity.
+  f_equal. induction H; cbn [map forallb] in *; [reflexivity|].
+  apply andb_true_iff in N as [N1 N2]. rewrite (H N1), (IHForall N2). reflexivity.
+Qed.
+End NoIn.
+Section NoInCorrect.
+Variable X : xlib.
+Hypothesis H_flt : forall s, (if float_syntax s then f_rust X s else None) = f_lex X s.
+Hypothesis H_dbl : forall s, (if float_syntax s then d_rust X s else None) = d_lex X s.
+Theorem eval_correct_no_in e mu : no_in e = true ->
+  orel X (i_eval X cfg_fixed e mu) (s_eval X (P_sophia X cfg_fixed) extensions_only e mu).
+Proof. intros N. rewrite <- (no_in_dialect X _ e mu N). apply eval_correct; assumption. Qed.
+End NoInCorrect.
+
+(* ------------------------------------------------------------------------------------ *)
+(* 9. the library used to run the model against the engine satisfies the two hypotheses *)
+(* ------------------------------------------------------------------------------------ *)
+Lemma split_first_e_sign sg r :
+  (sg = [] \/ sg = [45%N] \/ sg = [43%N]) ->
+  split_first is_e (sg ++ r) = let '(m, eo) := split_first is_e r in (sg ++ m, eo).
+Proof. intros [-> | [-> | ->]]; simpl; destruct (split_first is_e r); reflexivity. Qed.
+
+Lemma strip_sign_app s neg r sg : strip_sign s = (neg, r) -> s = sg ++ r ->
+  (sg = [] /\ neg = false \/ sg = [45%N] /\ neg = true \/ sg = [43%N] /\ neg = false) ->
+  forall m eo, split_first is_e r = (m, eo) -> strip_sign (sg ++ m) = (neg, m).
+Proof.
+  intros SS -> [[-> ->] | [[-> ->] | [-> ->]]] m eo SE; try reflexivity.
+  cbn [app] in *. unfold strip_sign in *. destruct r as [|ch r']; cbn [split_first] in SE.
+  - injection SE as <- <-. reflexivity.
+  - destruct (is_e ch) eqn:E.
+    + injection SE as <- <-. reflexivity.
+    + destruct (split_first is_e r') as [x y]. injection SE as <- <-.
+      destruct (is_minus ch); [discriminate SS|]. destruct (is_plus ch); [|reflexivity].
+      exfalso. injection SS as H. apply (f_equal (@length N)) in H. simpl in H. lia.
+Qed.
+
+Section Fmt.
+Variable prec emax : Z.
+Lemma number_syntax s :
+  let '(m, eo) := split_first is_e s in
+  (dec_syntax m && match eo with None => true | Some ex => int_syntax ex end) = is_some (parse_number s).
+Proof.
+  unfold parse_number, dec_syntax.
+  destruct (strip_sign s) as [neg r] eqn:SS.
+  destruct (strip_sign_shape _ _ _ SS) as (sg & E & Sg & _). subst s.
+  rewrite split_first_e_sign by (destruct Sg as [[-> _] | [[-> _] | [-> _]]]; auto).
+  destruct (split_first is_e r) as [m eo] eqn:SE.
+  rewrite (strip_sign_app _ _ _ _ SS eq_refl Sg _ _ SE).
+  destruct (split_first is_dot m) as [i fo].
+  set (f := match fo with Some f => f | None => [] end).
+  destruct (all_digits i && all_digits f && negb (is_nil i && is_nil f)) eqn:G; [|reflexivity].
+  apply andb_true_iff in G as [G _]. apply andb_true_iff in G as [Ai Af].
+  assert (Aif : all_digits (i ++ f) = true) by (unfold all_digits in *; rewrite forallb_app, Ai, Af; reflexivity).
+  destruct (all_digits_val _ Aif 0%Z) as [v ->]. cbn [andb].
+  destruct eo as [ex|]; [|reflexivity].
+  destruct (xsd_integer ex) as [z|] eqn:X.
+  - rewrite (proj2 (int_syntax_spec ex)) by eauto. reflexivity.
+  - destruct (int_syntax ex) eqn:S; [|reflexivity]. apply int_syntax_spec in S as [z S]. congruence.
+Qed.
+
+Lemma parse_number_head s t : parse_number s = Some t ->
+  exists ch r', snd (strip_sign s) = ch :: r' /\ (is_digit ch = true \/ is_dot ch = true).
+Proof.
+  unfold parse_number. destruct (strip_sign s) as [neg r]. cbn [snd].
+  destruct (split_first is_e r) as [m eo] eqn:SE. destruct (split_first is_dot m) as [i fo] eqn:SD.
+  set (f := match fo with Some f => f | None => [] end).
+  destruct (all_digits i && all_digits f && negb (is_nil i && is_nil f)) eqn:G; [|discriminate].
+  intros _. apply andb_true_iff in G as [G NE]. apply andb_true_iff in G as [Ai Af].
+  assert (Hm : exists ch m', m = ch :: m' /\ (is_digit ch = true \/ is_dot ch = true)).
+  { destruct fo as [f'|].
+    - destruct (split_first_some _ _ _ _ SD) as (ch & P & -> & _). destruct i as [|i0 i'].
+      + exists ch, f'. auto.
+      + exists i0, (i' ++ ch :: f'). split; [reflexivity|]. left. simpl in Ai. apply andb_true_iff in Ai. tauto.
+    - destruct (split_first_none _ _ _ SD) as [-> _]. destruct i as [|i0 i']; [discriminate|].
+      exists i0, i'. split; [reflexivity|]. left. simpl in Ai. apply andb_true_iff in Ai. tauto. }
+  destruct Hm as (ch & m' & -> & Hch).
+  destruct eo as [ex|].
+  - destruct (split_first_some _ _ _ _ SE) as (ce & _ & -> & _). exists ch, (m' ++ ce :: ex). auto.
+  - destruct (split_first_none _ _ _ SE) as [-> _]. exists ch, m'. auto.
+Qed.
+
+Lemma hyp_holds s : (if float_syntax s then sf_rust prec emax s else None) = sf_xsd prec emax s.
+Proof.
+  unfold float_syntax, sf_xsd.
+  destruct (eqs s "INF") eqn:E1. { apply eqs_true in E1. subst. reflexivity. }
+  destruct (eqs s "+INF") eqn:E2. { apply eqs_true in E2. subst. reflexivity. }
+  destruct (eqs s "-INF") eqn:E3. { apply eqs_true in E3. subst. reflexivity. }
+  destruct (eqs s "NaN") eqn:E4. { apply eqs_true in E4. subst. reflexivity. }
+  cbn [orb]. pose proof (number_syntax s) as NS. destruct (split_first is_e s) as [m eo]. rewrite NS.
+  unfold sf_number. destruct (parse_number s) as [t|] eqn:PN; cbn [is_some option_map]; [|reflexivity].
+  unfold sf_rust. destruct (parse_number_head _ _ PN) as (ch & r' & Hr & Hch).
+  destruct (strip_sign s) as [neg r]. cbn [snd] in Hr. subst r.
+  assert (NL : is_alpha ch = false /\ lower1 ch = ch).
+  { unfold is_alpha, lower1, is_digit, is_dot in *. destruct Hch as [D|D].
+    - apply andb_true_iff in D as [A B]. apply N.leb_le in A, B. split.
+      + apply orb_false_iff. split; apply andb_false_iff; left; apply N.leb_gt; lia.
+      + replace ((65 <=? ch) && (ch <=? 90)) with false; [reflexivity|].
+        symmetry. apply andb_false_iff. left. apply N.leb_gt. lia.
+    - apply N.eqb_eq in D. subst. split; reflexivity. }
+  destruct NL as [NA LW].
+  assert (F : forall nm, (nm = "inf" \/ nm = "infinity" \/ nm = "nan")%string -> eqs (lower (ch :: r')) nm = false).
+  { intros nm Hn. unfold eqs. cbn [lower map]. rewrite LW.
+    unfold is_alpha in NA. apply orb_false_iff in NA as [_ NA].
+    assert (ch <> 105%N /\ ch <> 110%N).
+    { split; intros ->; discriminate NA. }
+    destruct Hn as [-> | [-> | ->]]; cbn [L str_eqb N_of_ascii]; apply andb_false_iff; left; apply N.eqb_neq; cbn; tauto. }
+  rewrite (F "inf"%string), (F "infinity"%string), (F "nan"%string) by auto. cbn [orb]. unfold sf_number. rewrite PN. reflexivity.
+Qed.
+End Fmt.
+
+Theorem XC_float_lib_ok :
+  (forall s, (if float_syntax s then f_rust XC s else None) = f_lex XC s) /\
+  (forall s, (if float_syntax s then d_rust XC s else None) = d_lex XC s).
+Proof. split; intros s; apply hyp_holds. Qed.
+(* hence, for the very model that is compared with the engine on every generated case: *)
+Theorem eval_correct_XC e mu :
+  orel XC (i_eval XC cfg_fixed e mu) (s_eval XC (P_sophia XC cfg_fixed) sophia_dialect e mu).
+Proof. apply eval_correct; apply XC_float_lib_ok. Qed.
+Theorem filter_correct_XC e mu :
+  i_filter XC cfg_fixed e mu = s_filter XC (P_sophia XC cfg_fixed) sophia_dialect e mu.
+Proof. apply filter_correct; apply XC_float_lib_ok. Qed.
+Theorem bind_correct_XC e mu :
+  i_bind XC cfg_fixed e mu = s_bind XC (P_sophia XC cfg_fixed) sophia_dialect e mu.
+Proof. apply bind_correct; apply XC_float_lib_ok. Qed.
+
+(* ------------------------------------------------------------------------------------ *)
+(* 10. decimals: the literal written for a computed decimal (after repair C13e-7) is in the
+       lexical space of xsd:decimal and denotes the value *)
+(* ------------------------------------------------------------------------------------ *)
+Definition dnormal (d : dec) : Prop :=
+  (snd d = 0%N \/ (fst d mod 10 <> 0)%Z) /\ (fst d = 0%Z -> snd d = 0%N).
+
+Lemma dnorm_fuel_normal fuel : forall m s, (m <> 0)%Z -> (N.to_nat s <= fuel)%nat ->
+  dnormal (dnorm_fuel fuel m s) /\ (fst (dnorm_fuel fuel m s) <> 0)%Z.
+Proof.
+  induction fuel as [|f IH]; intros m s NZ F; cbn [dnorm_fuel].
+  - assert (s = 0%N) by lia. subst. split; [split; cbn; auto; intros; congruence|exact NZ].
+  - destruct (N.eqb_spec s 0) as [->|S0]; [split; [split; cbn; auto; intros; congruence|exact NZ]|].
+    destruct (Z.eqb_spec (m mod 10) 0) as [M|M].
+    + apply IH; [|lia]. intros Q. apply NZ. pose proof (Z.div_mod m 10 ltac:(lia)). lia.
+    + split; [split; cbn; auto; intros; congruence|exact NZ].
+Qed.
+Lemma dnorm_normal d : dnormal (dnorm d).
+Proof.
+  unfold dnorm. destruct (Z.eqb_spec (fst d) 0) as [E|NE].
+  - split; cbn; auto.
+  - apply dnorm_fuel_normal; [exact NE|lia].
+Qed.
+Lemma dnorm_of_normal d : dnormal d -> dnorm d = d.
+Proof.
+  destruct d as [m s]. intros [[S|M] Z0]; cbn [fst snd] in *; unfold dnorm; cbn [fst snd].
+  - subst s. destruct (m =? 0)%Z eqn:E; [apply Z.eqb_eq in E; subst; reflexivity|reflexivity].
+  - destruct (Z.eqb_spec m 0) as [->|NE]; [exfalso; apply M; reflexivity|].
+    destruct (N.to_nat s) eqn:Ns; cbn [dnorm_fuel]; [reflexivity|].
+    destruct (s =? 0)%N; [reflexivity|]. destruct (Z.eqb_spec (m mod 10) 0); [contradiction|reflexivity].
+Qed.
+Lemma dnorm_idem d : dnorm (dnorm d) = dnorm d.
+Proof. apply dnorm_of_normal, dnorm_normal. Qed.
+
+Lemma digits_val_zeros_pre k : forall s a, digits_val a (repeat 48%N k ++ s) = digits_val (a * 10 ^ Z.of_nat k) s.
+Proof.
+  induction k as [|k IH]; intros s a.
+  - simpl. f_equal. lia.
+  - cbn [repeat app digits_val]. change (is_digit 48) with true. cbv iota.
+    rewrite IH. f_equal. change (dval 48) with 0%Z. rewrite Nat2Z.inj_succ, Z.pow_succ_r by lia. lia.
+Qed.
+Lemma nat_str_digits n : (0 <= n)%Z -> all_digits (nat_str n) = true.
+Proof. intros H. destruct (nat_str_val n H) as [V _]. eapply digits_val_all_digits, V. Qed.
+Lemma all_digits_firstn k s : all_digits s = true -> all_digits (firstn k s) = true.
+Proof.
+  revert s. induction k; intros [|ch r] H; simpl in *; auto.
+  apply andb_true_iff in H as [-> H]. simpl. auto.
+Qed.
+Lemma all_digits_skipn k s : all_digits s = true -> all_digits (skipn k s) = true.
+Proof.
+  revert s. induction k; intros [|ch r] H; simpl in *; auto.
+  apply andb_true_iff in H as [_ H]. auto.
+Qed.
+Lemma all_digits_no_dot s : all_digits s = true -> forallb (fun ch => negb (is_dot ch)) s = true.
+Proof. apply forallb_impl. intros x D. destruct (digit_not_e_dot _ D) as [_ ->]. reflexivity. Qed.
+
+(* reading sign ++ i ++ "." ++ f *)
+Lemma xsd_decimal_parts (neg : bool) i f v :
+  all_digits i = true -> all_digits f = true -> i ++ f <> [] ->
+  digits_val 0 (i ++ f) = Some v ->
+  (i <> [] \/ neg = true) ->
+  xsd_decimal ((if neg then [45%N] else []) ++ i ++ 46%N :: f) = Some (dnorm (sgn neg v, N.of_nat (length f))).
+Proof.
+  intros Ai Af NE V Hd. unfold xsd_decimal.
+  assert (SS : strip_sign ((if neg then [45%N] else []) ++ i ++ 46%N :: f) = (neg, i ++ 46%N :: f)).
+  { destruct neg; [reflexivity|]. cbn [app]. destruct Hd as [Hd|Hd]; [|discriminate].
+    destruct i as [|i0 i']; [congruence|]. unfold strip_sign. cbn [app].
+    simpl in Ai. apply andb_true_iff in Ai as [D _]. destruct (digit_not_sign _ D) as (-> & -> & _). reflexivity. }
+  rewrite SS. rewrite split_first_app by (apply all_digits_no_dot, Ai). cbn [split_first is_dot N.eqb Pos.eqb]. rewrite app_nil_r.
+  rewrite Ai, Af. cbn [andb].
+  assert (NN : negb (is_nil i && is_nil f) = true).
+  { destruct i; [|reflexivity]. destruct f; [exfalso; apply NE; reflexivity|reflexivity]. }
+  rewrite NN, V. reflexivity.
+Qed.
+
+Lemma digits_val_zero a : digits_val a [48%N] = Some (10 * a)%Z.
+Proof. cbn [digits_val]. change (is_digit 48) with true. cbv iota. change (dval 48) with 0%Z. f_equal. lia. Qed.
+Lemma dnorm_shift m : dnorm ((m * 10)%Z, 1%N) = (m, 0%N).
+Proof.
+  unfold dnorm. cbn [fst snd]. destruct (Z.eqb_spec (m * 10) 0) as [E|E].
+  - assert (m = 0%Z) by lia. subst. reflexivity.
+  - change (N.to_nat 1) with 1%nat. cbn [dnorm_fuel N.eqb]. rewrite Z.mod_mul by lia. cbn [Z.eqb].
+    rewrite Z.div_mul by lia. reflexivity.
+Qed.
+Theorem dec_print_valid d : xsd_decimal (dec2string true d) = Some (dnorm d).
+Proof.
+  unfold dec2string. pose proof (dnorm_normal d) as NM. pose proof (dnorm_idem d) as ID.
+  destruct (dnorm d) as [m s]. destruct NM as [N1 N2]. cbn [fst snd] in *.
+  destruct (N.eqb_spec s 0) as [->|S0].
+  - (* "{}.0" *)
+    unfold z_to_str. destruct (Z.ltb_spec m 0) as [Ng|Ps].
+    + destruct (nat_str_val (- m) ltac:(lia)) as [V NE].
+      change (45%N :: nat_str (- m)) with ([45%N] ++ nat_str (- m)). rewrite <- app_assoc.
+      rewrite (xsd_decimal_parts true (nat_str (- m)) [48%N] (10 * - m)).
+      * cbn [sgn length N.of_nat Pos.of_succ_nat]. replace (- (10 * - m))%Z with (m * 10)%Z by lia. rewrite dnorm_shift. reflexivity.
+      * apply nat_str_digits. lia.
+      * reflexivity.
+      * intros C. apply app_eq_nil in C as [_ C]. discriminate.
+      * rewrite digits_val_app, V. apply digits_val_zero.
+      * auto.
+    + destruct (nat_str_val m Ps) as [V NE].
+      change (nat_str m ++ [46%N; 48%N]) with ([] ++ nat_str m ++ 46%N :: [48%N]).
+      rewrite (xsd_decimal_parts false (nat_str m) [48%N] (10 * m)).
+      * cbn [sgn length N.of_nat Pos.of_succ_nat]. replace (10 * m)%Z with (m * 10)%Z by lia. rewrite dnorm_shift. reflexivity.
+      * apply nat_str_digits. lia.
+      * reflexivity.
+      * intros C. apply app_eq_nil in C as [_ C]. discriminate.
+      * rewrite digits_val_app, V. apply digits_val_zero.
+      * auto.
+  - (* positive scale: plain notation *)
+    cbn [negb andb]. unfold dec_plain.
+    assert (MZ : m <> 0%Z) by (intros ->; apply S0; auto).
+    destruct (nat_str_val (Z.abs m) (Z.abs_nonneg m)) as [V NE].
+    pose proof (nat_str_digits (Z.abs m) (Z.abs_nonneg m)) as AD.
+    set (ds := nat_str (Z.abs m)) in *. set (L := N.of_nat (length ds)).
+    assert (SG : sgn (m <? 0)%Z (Z.abs m) = m).
+    { unfold sgn. destruct (Z.ltb_spec m 0); lia. }
+    replace (if (m <? 0)%Z then [45%N] else []) with (if (m <? 0)%Z then [45%N] else @nil N) by reflexivity.
+    destruct (N.ltb_spec s L) as [Lt|Ge].
+    + set (k := N.to_nat (L - s)).
+      assert (Kpos : (0 < k)%nat) by (unfold k; lia).
+      assert (Klen : (k <= length ds)%nat) by (unfold k, L in *; lia).
+      change ([46%N] ++ skipn k ds) with (46%N :: skipn k ds).
+      rewrite (xsd_decimal_parts (m <? 0)%Z (firstn k ds) (skipn k ds) (Z.abs m)).
+      * rewrite SG, skipn_length. replace (N.of_nat (length ds - k)) with s by (unfold k, L in *; lia).
+        rewrite ID. reflexivity.
+      * apply all_digits_firstn, AD.
+      * apply all_digits_skipn, AD.
+      * rewrite firstn_skipn. exact NE.
+      * rewrite firstn_skipn. exact V.
+      * left. destruct ds; [congruence|]. destruct k; [lia|discriminate].
+    + set (k := N.to_nat (s - L)).
+      change ([48%N; 46%N] ++ repeat 48%N k ++ ds) with ([48%N] ++ 46%N :: (repeat 48%N k ++ ds)).
+      rewrite (xsd_decimal_parts (m <? 0)%Z [48%N] (repeat 48%N k ++ ds) (Z.abs m)).
+      * rewrite SG, app_length, repeat_length. replace (N.of_nat (k + length ds)) with s by (unfold k, L in *; lia).
+        rewrite ID. reflexivity.
+      * reflexivity.
+      * unfold all_digits. rewrite forallb_app. apply andb_true_iff. split; [|exact AD].
+        clear. induction k; simpl; auto.
+      * discriminate.
+      * change ([48%N] ++ repeat 48%N k ++ ds) with (repeat 48%N (S k) ++ ds).
+        rewrite digits_val_zeros_pre. exact V.
+      * left. discriminate.
+Qed.
+
+Section ValidDec.
+Variable X : xlib.
+(* BIND of a computed decimal: a well-typed literal denoting exactly that value *)
+Theorem computed_dec_valid d :
+  classify X (s_term X (P_sophia X cfg_fixed) (SN (XD d))) = KNum (XD (dnorm d)).
+Proof.
+  cbn [s_term xnum_dt P_sophia fix_dec_print cfg_fixed]. unfold classify.
+  change (strip_pre xsd_ns xsd_decimal_iri) with (Some (L "decimal")). cbv iota beta.
+  change (numtype_of (L "decimal")) with (Some TDecimal). cbv iota beta.
+  cbn [l2v_num]. rewrite dec_print_valid. reflexivity.
+Qed.
+(* the decimals the operators produce are normalised, so [dnorm] above is the identity on them *)
+Lemma dadd_normal a b : dnorm (dadd a b) = dadd a b.
+Proof. unfold dadd. destruct (dalign a b) as [[x y] sc]. apply dnorm_idem. Qed.
+Lemma dsub_normal a b : dnorm (dsub a b) = dsub a b.
+Proof. unfold dsub. destruct (dalign a b) as [[x y] sc]. apply dnorm_idem. Qed.
+Lemma dmul_normal a b : dnorm (dmul a b) = dmul a b.
+Proof. apply dnorm_idem. Qed.
+End ValidDec.
